@@ -1111,3 +1111,8 @@ M("C19-load-mutates", "C19", TREE, '''        tree._logger.info("Tree loaded fro
 T("C19-t-dump-local", "C19", TREE, '''        with open(filepath, "wb") as f:
             pkl.dump(self, f)''', '''        with open(filepath, "wb") as snapshot_file:
             pkl.dump(self, snapshot_file)''', "renamed file handle")
+
+# ----------------------------------------------------------------------------- found by the generic mutation sweep (tools/mutgen.py)
+M("C02-cma-start-unevaluated", "C02", CMA, "        Individual.evaluate_population(starting_pop)\n", "", ["R02.10"], "CMA deme records its starting population without evaluating it")
+M("C02-lhs-unevaluated", "C02", LHS, "        Individual.evaluate_population(population)\n", "", ["R02.10"], "LHS deme records an unevaluated sample")
+T("C02-t-evaluate-loop", "C02", LHS, "        Individual.evaluate_population(population)\n", "        for sampled in population:\n            sampled.evaluate()\n", "explicit evaluation loop")
